@@ -188,6 +188,9 @@ def rule_r1(repo: Repo, res: Result) -> None:
                     res.add("C04.R1", f"{tag}::{pname} <- dirname({src}.__file__){suffix}", ok, f"{pname} = directory of {src}" if ok else f"`{pname}` receives `{show_loc(got) if got is not None else 'nothing'}` instead of the directory of {src}.__file__", where(call.fi, call.node), kind="flow")
                 else:
                     ok = a == ("param", pname) and pname in gm.param_names
+                    if a is not None and a[0] == "boolop" and a[1] == "or" and a[2][0] == ("param", pname) and all(x[0] in ("const", "lib", "tuple") for x in a[2][1:]):
+                        res.add("C04.R1", f"{tag}::{pname} forwarded{suffix}", False, f"`{pname}` is forwarded as `{show(a, 80)}`: an empty value given to the module-object entry point is replaced, the path entry point would have used it as it is", where(call.fi, call.node), kind="flow")
+                        continue
                     if not ok and a is not None and a[0] not in ("param", "const", "attr", "tuple"):
                         res.undecide("C04.R1", f"{tag}::{pname} forwarded{suffix}", f"cannot tell whether `{show(a, 120)}` is the option `{pname}` unchanged", where(call.fi, call.node))
                         continue
@@ -1007,6 +1010,56 @@ def _all_guard_atoms(sx: SymX, t: Term, internal: Term, depth: int = 0) -> set[s
     return out
 
 
+def _same_tests(sx: SymX, keys, M: Term, R: Term) -> dict[str, bool]:
+    """Atoms that test 'root_path equals module_path' -> polarity (True: the atom holds exactly when they are equal)."""
+    rel_mr = ("REL", M, R)
+    want = canon([("parts", ("REL", ("PARENT", M), ("PARENT", R)))])
+    tests: dict[str, bool] = {}
+    for k_ in sorted(keys):
+        t = sx.atoms.get(k_)
+        if t is None:
+            continue
+        if t[0] == "cmp" and t[1] == "==":
+            a, b2 = t[2], t[3]
+            c, o = (a, b2) if a[0] == "const" else (b2, a)
+            if is_const(c, ".") and (dotted(o) == [("parts", rel_mr)] or loc(o) == rel_mr):
+                tests[k_] = True
+            elif {strip_abs(loc(a)), strip_abs(loc(b2))} == {M, R}:
+                tests[k_] = True
+        elif loc(t) == ("attr", rel_mr, "parts"):
+            tests[k_] = False
+        elif dotted(t) == want or loc(t) == ("attr", want[0][1], "parts"):
+            tests[k_] = False  # the absolute-import prefix itself is empty exactly when both paths coincide
+    return tests
+
+
+def _check_internal_prefix(sx: SymX, res: Result, tag: str, what: str, e: Event, arg: Term | None, M: Term, R: Term) -> None:
+    """The prefix that separates internal from external modules is the dotted name of module_path, starting with the root
+    directory's name: `root.name + "." + <module_path relative to root_path>` (a trailing '.' does not matter)."""
+    key = f"{tag}::internal module prefix of the {what}"
+    if arg is None:
+        res.undecide("C04.R5", key, "no prefix argument", where(e.fi, e.node))
+        return
+    arg = restrict(arg, e.guard)
+    tests = _same_tests(sx, _guard_atoms(arg), M, R)
+    for same in (False, True):
+        known = f_and([(atom(k) if pol == same else f_not(atom(k))) for k, pol in tests.items()])
+        v = restrict(arg, known)
+        if v[0] == "phi":
+            res.undecide("C04.R5", key, f"cannot tell which of the alternatives of `{show(v, 120)}` is used when root_path {'equals' if same else 'differs from'} module_path", where(e.fi, e.node))
+            return
+        d = dotted(v, trailing_dot=True)
+        want = [("item", ("attr", R, "name"))] if same else canon([("item", ("attr", R, "name")), ("parts", ("REL", M, R))])
+        accepted = [want, canon([("item", ("attr", R, "name")), ("parts", ("REL", M, R))])] if same else [want]
+        if d is None or (d not in accepted and not _path_vocabulary(d, (M, R), (R,))):
+            res.undecide("C04.R5", key, f"cannot read the prefix `{show(v, 120)}` as a dotted module name", where(e.fi, e.node))
+            return
+        if d not in accepted:
+            res.add("C04.R5", key, False, f"when root_path {'equals' if same else 'differs from'} module_path the {what} treats `{show_dotted(d)}` as the internal prefix instead of `{show_dotted(want)}`: modules outside the scanned sub-tree count as internal (or the sub-tree itself as external)", where(e.fi, e.node), kind="structural")
+            return
+    res.add("C04.R5", key, True, "internal modules are those below the dotted name of module_path (root directory name + path from root_path to module_path)", where(e.fi, e.node), kind="structural")
+
+
 def _guard_atoms(t: Term) -> set[str]:
     """Atom keys of the guards of all guarded choices inside a term (including choices inside tested names)."""
     out: set[str] = set()
@@ -1061,7 +1114,9 @@ def rule_r5(repo: Repo, res: Result) -> None:
         ok_i = internal is not None and any(x[0] == "mcall" and x[2] == "parse" for x in subterms(internal))
         res.add("C04.R5", f"{tag}::internal modules <- scan result", ok_i, "the set of internal modules handed to the import conversion is computed from the scanned modules" if ok_i else f"the internal-module set of the import conversion is `{show(internal, 80) if internal is not None else '?'}`: not computed from the scanned modules, so no prefixed name can ever be recognised", where(e.fi, e.node), kind="flow")
         M, R = ("param", "module_path"), ("param", "root_path")
-        rel_mr = ("REL", M, R)
+        ext = [x for x in tr.events if x.kind == "call" and x.name == "ExternalImportFilter" and x.func[0] == "cls"]
+        if len(ext) == 1:
+            _check_internal_prefix(sx, res, tag, "external-import filter", ext[0], ext[0].arg(1, "root_module_name"), M, R)
         want = canon([("parts", ("REL", ("PARENT", M), ("PARENT", R)))])
         if prefix is None:
             res.undecide("C04.R5", f"{tag}::absolute-import prefix", "no prefix argument", where(e.fi, e.node))
@@ -1094,22 +1149,7 @@ def rule_r5(repo: Repo, res: Result) -> None:
             else:
                 res.add("C04.R5", key + " [source]", True, "absolute-import prefix = module_path.parent relative to root_path.parent, dotted", where(e.fi, e.node), kind="structural")
             # tests of 'root_path equals module_path' in the guards of the alternatives
-            tests = {}
-            for k_ in sorted({a_ for g, _ in alts for a_ in atoms_of(g)}):
-                t = sx.atoms.get(k_)
-                if t is None:
-                    continue
-                if t[0] == "cmp" and t[1] == "==":
-                    a, b2 = t[2], t[3]
-                    c, o = (a, b2) if a[0] == "const" else (b2, a)
-                    if is_const(c, ".") and (dotted(o) == [("parts", rel_mr)] or loc(o) == rel_mr):
-                        tests[k_] = True
-                    elif {strip_abs(loc(a)), strip_abs(loc(b2))} == {M, R}:
-                        tests[k_] = True
-                elif loc(t) == ("attr", rel_mr, "parts"):
-                    tests[k_] = False
-                elif dotted(t) == want or loc(t) == ("attr", want[0][1], "parts"):
-                    tests[k_] = False  # the prefix itself is empty exactly when both paths coincide
+            tests = _same_tests(sx, {a_ for g, _ in alts for a_ in atoms_of(g)}, M, R)
             def as_same(f: Formula) -> Formula:
                 return rename_atoms(f, lambda k_: (atom("SAME") if tests[k_] else f_not(atom("SAME"))) if k_ in tests else None)
 
@@ -1181,12 +1221,23 @@ def _check_adjusted(sx: SymX, name: Term, P: Term, I: Term, guard: Formula = TRU
     tests_prefix = any(sx.atoms.get(k) == P for k in _all_guard_atoms(sx, name, I))
     if tests_prefix:
         universe = universe + [("truth", P)]
+    # textual tests on the raw names (`x.startswith(prefix + ".")`) say nothing about what was scanned: free variables
+    raw = {n[1]} | ({a[1]} if a is not None else set())
+    textual = []
+    for k in sorted(_all_guard_atoms(sx, name, I)):
+        t = sx.atoms.get(k)
+        if t is not None and t[0] == "mcall" and t[1] in raw and t[2] in ("startswith", "endswith") and ("truth", t) not in universe:
+            textual.append(t)
+            universe = universe + [("truth", t)]
     labels = {P: "prefix", n[1]: "x"}
     if a is not None:
         labels[a[1]] = "y"
     stmt = "from x import y" if a is not None else "import x"
 
     def text(nm) -> str:
+        if nm and nm[0] == "truth":
+            t_ = nm[1]
+            return f"{labels.get(t_[1], '?')}.{t_[2]}({', '.join(show(z, 40) for z in t_[3])})".replace(show(P), "prefix")
         return ".".join(q[1] if q[0] == "c" else labels.get(q[1], show(q[1], 40)) for q in nm)
 
     mismatches = []
@@ -1216,7 +1267,7 @@ def _check_adjusted(sx: SymX, name: Term, P: Term, I: Term, guard: Formula = TRU
         if got is None:
             return None, f"cannot evaluate `{show(name, 140)}` for a given set of internal modules"
         if got != expected:
-            inside = [k for k, v in facts.items() if k != "known" and v and k[0] != "truth"]
+            inside = [k for k, v in facts.items() if k != "known" and v and (k[0] != "truth" or k[1] in textual)]
             mismatches.append((sum(1 for k in inside if k[0] != p), len(inside), inside, got, expected))
     if mismatches:
         # report the most natural witness: internal modules are fully qualified names
@@ -1227,5 +1278,7 @@ def _check_adjusted(sx: SymX, name: Term, P: Term, I: Term, guard: Formula = TRU
             why = "the sub-module test is made on the un-adjusted name: the importee is the package instead of the sub module"
         else:
             why = "the name is not `prefix.x` exactly when that is a scanned module"
-        return False, f"`{stmt}` with internal modules {{{', '.join(text(k) for k in inside)}}} yields the importee `{text(got)}` instead of `{text(expected)}`: {why}"
+        mods_ = [text(k) for k in inside if k[0] != "truth"]
+        cond_ = [text(k) for k in inside if k[0] == "truth"]
+        return False, f"`{stmt}` with internal modules {{{', '.join(mods_)}}}" + (f" and `{' and '.join(cond_)}`" if cond_ else "") + f" yields the importee `{text(got)}` instead of `{text(expected)}`: {why}"
     return True, "the absolute importee is `prefix.name` exactly when that is a scanned module" + (" (sub-module test on the adjusted name)" if a is not None else "")
